@@ -315,3 +315,26 @@ Proof.
   - right. eauto.
   - destruct H.
 Qed.
+
+(** ** the typed accessors create/show call never panic on a decoded KV *)
+Lemma key_value_ok_default {T} (proj : val -> option T) m key d ds : is_ok (key_value proj m key (d :: ds)) = true.
+Proof. unfold key_value. destruct (kv_get (key_for m key) m) as [v|]; [destruct (proj v)|]; reflexivity. Qed.
+
+Theorem accessors_total base bytes maxArr d al :
+  decode_from base bytes maxArr = DOk d al -> accessors_ok (d_kv d) = true.
+Proof.
+  unfold decode_from. destruct (rd_header _ bytes) as [[[ver kv0] ts] rest al0 | |]; [|discriminate|discriminate].
+  cbv zeta. destruct (_ =? 0)%Z; [discriminate|]. destruct (go_pad_p _ _); [|discriminate].
+  destruct (seek_tensors _ _ ts); [|discriminate]. intro H. inversion H; subst d. cbn [d_kv].
+  unfold accessors_ok, r_architecture, r_kind, r_chat_template, r_file_type, r_parameter_count.
+  rewrite !key_value_ok_default.
+  assert (E4 : is_ok (match key_value val_u32 ((k_param_count, VNum 10 (total_params ts)) :: kv0) k_file_type [0] with
+                      | AOk t => AOk (if 0 <? t then t else 33) | APanic p => APanic p end) = true).
+  { pose proof (key_value_ok_default val_u32 ((k_param_count, VNum 10 (total_params ts)) :: kv0) k_file_type 0 []) as Hk.
+    destruct (key_value val_u32 _ k_file_type [0]); [reflexivity | discriminate]. }
+  rewrite E4. reflexivity.
+Qed.
+
+(** without the decoder's patch of general.parameter_count, ParameterCount does panic (it passes no default) *)
+Lemma parameter_count_needs_decode : r_parameter_count [] = APanic PIndex.
+Proof. reflexivity. Qed.
